@@ -56,6 +56,8 @@ where
     iodriver: IoDriver,
     corrupted_blobs: AtomicUsize,
     fsync_in_progress: AtomicBool,
+    /// Set when a sync was wanted while another one was in progress (the bytes may be not covered by it)
+    fsync_requested: AtomicBool,
 }
 
 #[derive(Debug)]
@@ -1145,7 +1147,8 @@ where
             next_blob_id: AtomicUsize::new(0),
             iodriver,
             corrupted_blobs: AtomicUsize::new(0),
-            fsync_in_progress: AtomicBool::new(false)
+            fsync_in_progress: AtomicBool::new(false),
+            fsync_requested: AtomicBool::new(false),
         }
     }
 
@@ -1303,12 +1306,24 @@ where
     }
 
     pub(crate) async fn fsyncdata(&self) -> IOResult<()> {
-        if self.fsync_in_progress.compare_exchange(false, true, Ordering::AcqRel, Ordering::Acquire).is_err() {
-            return Ok(())
+        loop {
+            if self.fsync_in_progress.compare_exchange(false, true, Ordering::SeqCst, Ordering::SeqCst).is_err() {
+                return Ok(())
+            }
+            {
+                let _flag = ResetableFlag { flag: &self.fsync_in_progress };
+                self.fsync_requested.store(false, Ordering::SeqCst);
+                self.fsyncdata_if_too_many_dirty_bytes().await?;
+            }
+            // Bytes written while the sync was running are not covered by it, and their writers
+            // did not send a request of their own because they saw the flag
+            if !self.fsync_requested.load(Ordering::SeqCst) {
+                return Ok(());
+            }
         }
+    }
 
-        let _flag = ResetableFlag { flag: &self.fsync_in_progress };
-
+    async fn fsyncdata_if_too_many_dirty_bytes(&self) -> IOResult<()> {
         let safe = self.safe.read().await;
         if let Some(ablob) = &safe.active_blob {
             let ablob = ablob.read().await;
@@ -1318,6 +1333,16 @@ where
         }
 
         safe.fsyncdata().await
+    }
+
+    /// Returns true when a background sync is running; the request is left for it, so that it runs
+    /// once more after it has finished
+    pub(crate) fn fsync_in_progress_or_request(&self) -> bool {
+        if !self.fsync_in_progress.load(Ordering::SeqCst) {
+            return false;
+        }
+        self.fsync_requested.store(true, Ordering::SeqCst);
+        self.fsync_in_progress.load(Ordering::SeqCst)
     }
 
     /// Explicit sync requested by the user: unlike the background `fsyncdata` it is not skipped
@@ -1333,7 +1358,7 @@ where
     }
 
     pub(crate) fn should_try_fsync(&self, dirty_bytes: u64) -> bool {
-        self.too_many_dirty_bytes(dirty_bytes) && !self.fsync_in_progress.load(Ordering::Acquire)
+        self.too_many_dirty_bytes(dirty_bytes) && !self.fsync_in_progress_or_request()
     }
 
     fn too_many_dirty_bytes(&self, dirty_bytes: u64) -> bool {
@@ -1347,7 +1372,7 @@ struct ResetableFlag<'a> {
 
 impl<'a> Drop for ResetableFlag<'a> {
     fn drop(&mut self) {
-        self.flag.store(false, Ordering::Release);
+        self.flag.store(false, Ordering::SeqCst);
     }
 }
 
